@@ -7,6 +7,9 @@ def depsMark : String := "DONE[PROVIDED] = true"
 def depsDepIs : String := "STATE.Graph.TargetOrDie(PROVIDED)"
 def depsBranchConds : List String := ["HIDDEN || !DEP.HasParent()", "DEP.Label.Parent() == TARGET.Label.Parent()", "else"]
 def depsBranchIncs : List Nat := [1, 0, 1]
+def depsAdjustBranch : List Nat := []
+def depsAdjustConds : List String := []
+def depsAdjustIncs : List Nat := []
 def depsBranchPrints : List String := ["print@+0", "silent", "silent"]
 def revPush : List String := ["!present", "PushBack", "Front"]
 def revDepthInit : String := "NEXT.DEPTH"
@@ -17,7 +20,7 @@ def revReportCond : String := "DEPTH > 0"
 def revReportBranches : List String := ["R.hidden || !T.Label.IsHidden()", "PARENT := T.Parent(state.Graph); PARENT != nil"]
 def revReportWhat : List String := ["ret[T]", "ret[PARENT]"]
 def revPushCall : String := "R.os.Push(&node{ target: T, DEPTH: DEPTH, })"
-def isSameTarget : List String := ["if LHS == RHS { return true }", "if LHS.Label.IsHidden() { LHS = LHS.Parent(GRAPH) }", "if RHS.Label.IsHidden() { RHS = RHS.Parent(GRAPH) }", "return LHS == RHS && LHS != nil"]
+def isSameTarget : List String := ["if LHS == RHS { return true }", "return LHS.Label.Parent() == RHS.Label.Parent()"]
 def revInitDepths : List String := ["0", "0"]
 def revChildCond : String := "!HIDDEN && !label.IsHidden()"
 def spGuards : List String := ["T1.Label == T2.Label => return []core.BuildLabel{T1.Label}", "T1.Parent(GRAPH) == T2 => return []core.BuildLabel{T1.Label}", "SEEN[T1.Label] present => return nil"]
